@@ -10,6 +10,21 @@ SIZES_BLK = [0, 1, 1023, 1024, 1025, 2048, 3000, 4096, 5000, 8192]
 def gen_history(rng, nd, ncmd):
     """a list of operations: FS changes and tool commands"""
     ops = []
+    sc = rng.random()
+    if sc < 0.15:
+        # a disk loses every file at once, its extent reaches beyond the other disks, the sync is partial
+        big = rng.choice([4096, 8192]); small = rng.choice([1024, 2048, 4096])
+        ops += [('write', 'd1', 'A', big), ('write', 'd2', 'B', small), ('sync',), ('wipedisk', 'd1'),
+                ('sync', '-B', str(rng.randint(1, 2))), ('sync',)]
+        if rng.random() < 0.5:
+            return ops
+    elif sc < 0.3:
+        # a silent error and a deletion (or a replacement) meet in the same stripe
+        ops += [('write', 'd1', 'A', 4096), ('write', 'd2', 'B', 4096), ('write', 'd%d' % nd, 'C', 2048), ('sync',),
+                rng.choice([('remove', 'd2', 'B'), ('write', 'd2', 'B', 3000), ('truncate', 'd2', 'B', 1024)]),
+                ('corrupt', 'd1', rng.getrandbits(16)), ('sync',)]
+        if rng.random() < 0.5:
+            return ops
     names = ['a', 'b', 'c', 'dir/x', 'dir/y', 'e']
     for step in range(ncmd):
         nfs = rng.randint(1, 4) if step else rng.randint(3, 6)
